@@ -223,7 +223,7 @@ func init() {
 			// relative references (contents, scripts, changelog) with the configuration file in another directory: they are
 			// relative to the working directory, whatever lies next to the configuration file
 			for _, f := range Formats {
-				for _, inv := range []string{"", "stdin"} {
+				for _, inv := range []string{"", "stdin", "target-in-source"} {
 					if !yield(C15Case{Part: "cli-relrefs", Format: f, Cfg: baseMeta(), Invoke: inv}) {
 						return
 					}
@@ -499,6 +499,38 @@ func checkC15(env *engine.Env, ci any) engine.Outcome {
 		}
 		relText, absText := mk(""), mk(work)
 		put("packaging/nfpm.yaml", []byte(relText), 0o644)
+		if c.Invoke == "target-in-source" {
+			// the package is written into a directory that is itself a source: whatever that means for the package, it
+			// means the same whether the configuration spells its sources relatively or absolutely
+			put("packaging/abs.yaml", []byte(absText), 0o644)
+			tgt := filepath.Join(work, "files", "out"+extOf[f])
+			var outs [2][]byte
+			for i, cf := range []string{"nfpm.yaml", "abs.yaml"} {
+				os.Remove(tgt)
+				cmd := exec.Command(bin, "package", "-f", filepath.Join("packaging", cf), "-p", f, "-t", tgt)
+				cmd.Dir = work
+				for _, kv := range os.Environ() {
+					if !strings.HasPrefix(kv, "C15_DOTENV_VAR=") {
+						cmd.Env = append(cmd.Env, kv)
+					}
+				}
+				o, rerr := cmd.CombinedOutput()
+				out.Transitions++
+				if rerr != nil {
+					out.Key = fmt.Sprintf("cli-relrefs:%s:%s:fails", f, c.Invoke)
+					out.Nontrivial = false
+					_ = o
+					return out // a tree that refuses such a target: nothing to compare
+				}
+				outs[i], _ = os.ReadFile(tgt)
+			}
+			out.Nontrivial = true
+			out.Key = fmt.Sprintf("cli-relrefs:%s:%s:%d", f, c.Invoke, len(outs[0]))
+			if !bytes.Equal(outs[0], outs[1]) {
+				viol("cli:relrefs:spelling-matters:"+f, "target %s inside the source directory files/: the package built from relatively spelt sources (%d bytes) differs from the one built from the same sources spelt absolutely (%d bytes)", tgt, len(outs[0]), len(outs[1]))
+			}
+			return out
+		}
 		target := filepath.Join(work, "out"+extOf[f])
 		args := []string{"package", "-f", filepath.Join("packaging", "nfpm.yaml"), "-p", f, "-t", target}
 		cmd := exec.Command(bin, args...)
